@@ -14,7 +14,6 @@ WALKER = dict(bin="walker", driver_cmd=["python3", "lib/null_driver.py"], case_s
 CSTR = dict(bin="cstrfmt", driver="cstrfmt_driver", model_ml="cstrfmt_model", extract=["CStrFmt"], case_seconds=3)
 
 CONFIG = dict(
-    claimed=False,  # until the repairs of the defects the walker finds are merged
 
     claim="Machine-checked proof, over the executable models of all traversals modelled so far, that the stated fuel - a function of the input length - always suffices and that item counts are bounded by the input: relocation blocks (fuel = length, at most len/8 blocks; the builder writes at most 12 bytes per rva), the string enumerator (at most length+1 items), sentinel / predicate scans and C strings on both read paths (fuel = slice length / element size + 1), the two backward scans of the Rich header, the pattern parser on any byte string (fuel length+1), the pattern interpreter on any atom list (fuel |pat|+1 per invocation, program counter as measure), and the escape loops of <CStr as Debug>/<CStr as Display> (fuel length+1, at most 4 output bytes per byte; F15 repaired). The traversals of the directory parsers are stated in their own properties (C08 binary search, C12 resource tree and fsck, C13 TLV parser, C10 scanner). Tied to /repo by re-running every component correspondence under a per-case CPU budget in isolated worker processes (a case that exceeds it is re-run alone with ten times the budget before it is called a hang), plus a walker that calls every iterator, formatter, serializer, fsck and scanner query on the shipped PE files and field-level corruptions of them with item-count assertions.",
     note="Partial by nature: wall-clock time and stack bytes are not modelled; the models bound steps and recursion depth. Trusted: Coq kernel, extraction and glue, process isolation and the alarm()-based budget of the harness.",
